@@ -22,7 +22,7 @@ POOL = 6
 FUNCS = ['is_none', 'typename', 'rep', 'str2', 'const7', 'ident']
 OPS = ['new_records', 'new_columns', 'new_rows', 'new_empty', 'setitem', 'setitem_from', 'update_from', 'delitem', 'update', 'row', 'col', 'cols_tuple', 'slice',
        'mask', 'take', 'project', 'derive', 'rename', 'do', 'minus', 'copy', 'add', 'iadd', 'add_record', 'add_records', 'add_zero', 'concat', 'sum_rows',
-       'inc', 'exc', 'inc_fn', 'inc_all', 'inc_dict', 'edit_returned', 'setitem_reject', 'new_reject', 'update_reject']
+       'inc', 'exc', 'inc_fn', 'inc_all', 'inc_dict', 'edit_returned', 'apply', 'setitem_reject', 'new_reject', 'update_reject']
 
 
 class SimCallbackError(Exception):
@@ -139,7 +139,7 @@ def generate(st):
         'cols': sorted(sw.sample(COLS, sw.randint(2, 6)) + (['data'] if sw.random() < 0.2 else []) + (['columns'] if sw.random() < 0.06 else []) + (['key'] if sw.random() < 0.15 else [])),
         'cells': sorted(sw.sample(range(len(CELLS)), sw.randint(3, len(CELLS)))),
         'faulty': sw.random() < 0.6,
-        'off': sorted(sw.sample(OPS[4:34], sw.randint(0, 8))),
+        'off': sorted(sw.sample(OPS[4:35], sw.randint(0, 8))),
     }
     FILTER_DICTS.clear()
     REAL_FILTER_DICTS.clear()
@@ -289,7 +289,7 @@ def _gen_op(o, g, f, cfg, cells, cols, models, rows_n, cell, spec_for):
             if not m.cols or len(items) < 2:
                 return None
             bad = g.choice([x for x in (0, 2, 3, n + 1, n + 2) if x != n and x != 1])
-            items[-1][1] = {'list': [enc(cell()) for _ in range(bad)]}
+            items[g.randrange(len(items))][1] = {'list': [enc(cell()) for _ in range(bad)]}      # fitting items may follow the bad one
         return {'op': o, 't': t, 'items': items}
     if o == 'row':
         if n == 0:
@@ -482,6 +482,17 @@ def _gen_op(o, g, f, cfg, cells, cols, models, rows_n, cell, spec_for):
         vals1 = [v for v in m.column(c1) if v is not None and not _isnan(v)]
         # filter dict number k of the caller: created on first use, then reused as is
         return {'op': o, 't': t, 'k': g.randrange(2), 'col': c1, 'val': enc(g.choice(vals1) if vals1 and g.random() < 0.7 else 'x'), 'kw': kw, 'exc': g.random() < 0.4}
+    if o == 'apply':
+        if not m.cols:
+            return None
+        fn = g.choice(['is_none', 'typename', 'rep', 'str2'])
+        ar = PURE[fn][0]
+        if ar > len(m.cols):
+            fn, ar = 'rep', 1
+        ra = None
+        if faulty and n and f.random() < 0.3:
+            ra = f.randint(1, n)
+        return {'op': o, 't': t, 'fn': fn, 'args': g.sample(m.cols, ar), 'raise_at': ra}
     if o == 'edit_returned':
         if not m.cols:
             return None
@@ -849,6 +860,13 @@ def model_apply(op, models):
         hit = [all(_filter_match(r[c], v) for c, v in eff.items()) for r in m.rows]
         rows = [r for r, h in zip(m.rows, hit) if (not h if op.get('exc') else h)]
         return ('table', M(m.cols, rows))
+    if o == 'apply':
+        if any(a not in m.cols for a in op['args']) or len(op['args']) != PURE[op['fn']][0] or len(set(op['args'])) != len(op['args']):
+            return ('skip',)
+        if _will_raise(op, n):
+            return ('raise', None)
+        fn = PURE[op['fn']][1]
+        return ('value', [fn(*[r[a] for a in op['args']]) for r in m.rows])
     if o == 'edit_returned':
         if op['col'] not in m.cols or (op['what'] == 'row' and not (-n <= op['i'] < n)) or (op['what'] == 'row' and n == 0):
             return ('skip',)
@@ -989,7 +1007,17 @@ def execute(trace, ctx=None):
                     if any(not isinstance(x, list) for x in lists.values()) or len({len(x) for x in lists.values()}) > 1:
                         raise Violation('not-rectangular', 'after a rejected update columns have lengths %s' % {c: len(x) for c, x in lists.items()}, k)
                     n_now = len(next(iter(lists.values()))) if lists else 0
-                    news = {c: _as_values(spec)[1] for c, spec in op['items']}
+                    news = {}
+                    probe_m = m_old.copy()
+                    for c, spec in op['items']:
+                        vals_ = _as_values(spec)[1]
+                        if _broadcast(vals_, probe_m.n(), bool(probe_m.cols)) is None:
+                            break                # update assigns item by item: nothing after the item that raised is applied
+                        news[c] = vals_
+                        if c not in probe_m.cols:
+                            probe_m.cols.append(c)
+                            if not probe_m.rows and len(vals_) and len(probe_m.cols) == 1:
+                                probe_m.rows = [{} for _ in vals_]
                     for c in m_old.cols:
                         if c not in lists:
                             raise Violation('columns-differ', 'a rejected update removed column %r' % c, k)
@@ -1255,6 +1283,9 @@ def real_apply(op, reals, dictable):
         flt = REAL_FILTER_DICTS.setdefault(op['k'], dict(FILTER_DICTS[op['k']]))
         kw = {op['kw'][0]: dec(op['kw'][1])} if op.get('kw') else {}
         return d.exc(flt, **kw) if op.get('exc') else d.inc(flt, **kw)
+    if o == 'apply':
+        counter = [0]
+        return d[make_callable(op['fn'], op['args'], counter, op.get('raise_at'))]
     if o == 'edit_returned':
         w = op['what']
         if w == 'row':
